@@ -386,7 +386,7 @@ impl Model {
                     return ex;
                 }
                 let ids: Vec<Id> = match repl {
-                    Repl::Wrappers(x) | Repl::Raws(x) => x.clone(),
+                    Repl::Wrappers(x) | Repl::Raws(x) | Repl::Growing(x, _) => x.clone(),
                     Repl::DrainOf(w, a, b) => self.vecs[*w].drain(*a..*b).collect(),
                     Repl::LazyRefs(w, js) => {
                         let ids: Vec<Id> = js.iter().map(|j| self.vecs[*w][*j]).collect();
